@@ -73,7 +73,9 @@ Nominal(e, pre) ==
      [] e.op = "reverse"        -> IReverse(pre)
      [] e.op = "reverse_copy"   -> IReverseCopy(pre)
      [] e.op = "copy"           -> ICopy(pre)
-     [] e.op = "pickle"         -> ICopy(pre)                            \* qwrite + qread
+     [] e.op = "pickle"         -> ICopy(pre)                            \* qwrite + qread, pickle / deepcopy of the object
+     [] e.op = "dumpread"       -> IDumpRead(pre)                        \* dump() / output(db) printed, read() again
+     [] e.op = "dumprevread"    -> IDumpReverseRead(pre)                 \* dump_reverse() printed, read() again
      [] e.op = "choose"         -> IChoose(pre, ToSet(e.s))
      [] e.op = "choose_copy"    -> IChooseCopy(pre, ToSet(e.s))
      [] e.op = "filter_p"       -> IFilterP(pre, ToSet(e.s))
@@ -91,6 +93,8 @@ RefNext(e, a) ==
      [] e.op = "insert"                      -> AInsert(a, e.a, ToSet(e.s))
      [] e.op \in {"reverse", "reverse_copy"} -> AReverse(a)
      [] e.op \in {"copy", "pickle"}          -> a
+     [] e.op = "dumpread"                    -> [P |-> a.P, T |-> AUsedT(a.R), R |-> a.R]
+     [] e.op = "dumprevread"                 -> [P |-> a.T, T |-> AUsedP(a.R), R |-> AReverse(a).R]
      [] e.op \in RestrictPOps                -> ARestrictP(a, ToSet(e.s))
      [] e.op \in {"filter_t", "filter_t_copy"} -> ARestrictT(a, ToSet(e.s))
      [] e.op = "facet"                       -> AFacet(a)
@@ -109,10 +113,10 @@ QueriesOK(e, pre) ==
    /\ \A i \in 1..Len(e.qn) :
          LET n == e.qn[i] IN
          /\ ToSet(e.qtags[i]) = ITagsOf(pre, n) /\ ToSet(e.qpkgs[i]) = IPkgsOf(pre, n)
-         /\ e.qcard[i] = ICard(pre, n)
+         /\ e.qcard[i] = ICard(pre, n) /\ e.qdisc[i] = IDiscriminance(pre, n)
          /\ e.qhasp[i] = IHasPkg(pre, n) /\ e.qhast[i] = IHasTag(pre, n)
          /\ inv => /\ ToSet(e.qtags[i]) = ATagsOf(a, n) /\ ToSet(e.qpkgs[i]) = APkgsOf(a, n)
-                   /\ e.qcard[i] = ACard(a, n)
+                   /\ e.qcard[i] = ACard(a, n) /\ e.qdisc[i] = ADiscriminance(a, n)
                    /\ e.qhasp[i] = AHasPkg(a, n) /\ e.qhast[i] = AHasTag(a, n)
    \* iter_packages / iter_tags / iter_packages_tags / iter_tags_packages: each key once
    /\ ToSet(e.itp) = DOMAIN pre.db /\ Len(e.itp) = Cardinality(DOMAIN pre.db)
@@ -120,7 +124,7 @@ QueriesOK(e, pre) ==
    /\ NoDupKeys(e.itpt) /\ ObsFn(e.itpt) = pre.db
    /\ NoDupKeys(e.ittp) /\ ObsFn(e.ittp) = pre.rdb
 
-CopyOps == {"copy", "reverse_copy", "pickle"}
+CopyOps == {"copy", "reverse_copy", "pickle", "dumpread", "dumprevread"}
 KeepOps == CopyOps \cup RestrictPOps \cup {"reverse", "filter_t", "filter_t_copy", "facet"}
 
 \* a failing call: the exception propagates, the object stays consistent
